@@ -31,7 +31,9 @@ RULE = ('Published histories v0..vn (n <= 5; Packages-shaped paragraphs incl. no
         'index x local state {each v_i, current, foreign, absent} x fault {none, each patch corrupted / truncated / missing, '
         'patch names in 5 schemes (sequential, counting down, unpadded numbers, hash-like, time stamps - the order of the History lines, not of the names, is the order of application), Index missing / unparsable / incomplete / the real Index damaged (CRLF, truncated, stray or appended blank-like lines), full file missing, open/.new fails, k-th write fails for every k, close '
         'fails, rename vetoed, OSError at every executed line of the four functions}.  Every (scenario, fault, position) is '
-        'one evaluation.  Non-trivial: >= 2 patches to apply, or a fault that actually fired on the taken path.')
+        'one evaluation; after every transient fault (and after plain successes) the call is REPEATED without faults - it must converge, '
+        'resp. find the file current with nothing but the Index fetched; and the mirror ADVANCES between two calls (v_k published, '
+        'local updated, v_k+1..v_n published under the same URL, call repeated).  Non-trivial: >= 2 patches to apply, or a fault that actually fired on the taken path.')
 ASSUMPTIONS = ['every published version is a list of newline-terminated lines none of which is a lone "." (an ed script cannot carry either); lines may contain FF, VT, FS/GS/RS, NEL, U+2028/9 (not CR: text-mode file I/O translates it)',
                '"Index unusable" = missing or syntactically unparsable (some line is neither "Name: ...", nor a continuation line, nor a blank '
                'separator - the documented line grammar, kept as a 20-line reference in the harness); for an Index that is grammatical but '
@@ -42,16 +44,18 @@ ANCHORS = ['debian.debian_support:update_file', 'debian.debian_support:replace_f
            'debian.debian_support:download_gunzip_lines', 'debian.debian_support:PackageFile.__iter__',
            'debian.debian_support:patch_lines', 'debian.debian_support:patches_from_ed_script']
 MUST_REACH = ANCHORS
-FLOORS = {'quick': {'nontrivial': 1500, 'monitors': {'M.outcome': 6000, 'T.trace': 6000},
+FLOORS = {'quick': {'nontrivial': 1500, 'monitors': {'M.outcome': 6000, 'T.trace': 6000, 'M.next-call': 1900, 'M.advance': 120},
                     'counters': {'fault-fired:write-fail': 400, 'fault-fired:rename-veto': 40, 'fault-fired:close-fail': 40,
                                  'fault-fired:open-fail': 40, 'fault-fired:failpoint': 2000, 'fault-fired:corrupt-patch': 20,
                                  'fault-fired:trunc-patch': 20, 'fault-fired:inconsistent-patch': 20, 'converged-by-chain>=2': 25, 'alg:sha256': 1000, 'alg:sha1': 1000,
-                                 'damaged-index:malformed': 100, 'damaged-index:grammatical': 40, 'converged-by-chain>=2-with-names-not-in-text-order': 15}},
-          'thorough': {'nontrivial': 60000, 'monitors': {'M.outcome': 250000, 'T.trace': 250000},
+                                 'damaged-index:malformed': 100, 'damaged-index:grammatical': 40, 'converged-by-chain>=2-with-names-not-in-text-order': 15,
+                                 'next-call:after-success': 230, 'next-call:after-error': 1700, 'advance:second-stage-by-chain': 60}},
+          'thorough': {'nontrivial': 60000, 'monitors': {'M.outcome': 250000, 'T.trace': 250000, 'M.next-call': 190000, 'M.advance': 12000},
                        'counters': {'fault-fired:write-fail': 20000, 'fault-fired:rename-veto': 1500, 'fault-fired:close-fail': 1500,
                                     'fault-fired:open-fail': 1500, 'fault-fired:failpoint': 80000, 'fault-fired:corrupt-patch': 800,
                                     'fault-fired:trunc-patch': 800, 'fault-fired:inconsistent-patch': 800, 'converged-by-chain>=2': 1500, 'alg:sha256': 40000,
-                                    'alg:sha1': 40000, 'damaged-index:malformed': 7000, 'damaged-index:grammatical': 3000, 'converged-by-chain>=2-with-names-not-in-text-order': 1000}}}
+                                    'alg:sha1': 40000, 'damaged-index:malformed': 7000, 'damaged-index:grammatical': 3000, 'converged-by-chain>=2-with-names-not-in-text-order': 1000,
+                                    'next-call:after-success': 23000, 'next-call:after-error': 170000, 'advance:second-stage-by-chain': 6000}}}
 LEVEL_TEXT = ('Runtime monitoring with fault enumeration: for every generated (history, local state) the call is repeated once per '
               'fault position - every write index, every executed source line of the four functions, every patch of the chain - '
               'against a file:// mirror; an outcome oracle and a trace specification over audit events decide each execution.  '
@@ -123,6 +127,11 @@ def cases(ctx):
         # layout of the Index: real ones use one blank; the format allows any run of blanks/tabs
         ilayout = [r.choice([' ', ' ', '  ', '\t', ' \t', '   ']), r.choice([' ', ' ', '  ', '\t', '     '])]
         pnames = r.choice(PNAME_SCHEMES)
+        if len(vs) >= 3:
+            for _ in range(6):
+                k = r.randint(2, len(vs) - 1)
+                yield {'kind': 'advance', 'versions': vs, 'alg': alg, 'k': k, 'ilayout': ilayout, 'pnames': pnames,
+                       'start': r.choice(['v%d' % i for i in range(k)] + ['foreign', 'absent'])}
         starts = ['v%d' % i for i in range(n)] + ['current', 'foreign', 'absent']
         for start in starts:
             faults = [{'kind': 'none'}, {'kind': 'no-index'}, {'kind': 'bad-index', 'variant': r.randrange(3)},
@@ -368,7 +377,66 @@ def _expected_chain(vs, start_lines):
     return None
 
 
+def run_advance(ctx, case):
+    """The mirror ADVANCES between two calls: published up to v_k, local brought up to date, then v_{k+1}..v_n are
+    published under the same URL and the call is repeated.  Nothing learned from the first index may survive."""
+    from debian import debian_support as ds
+    vs, alg, k = case['versions'], case['alg'], case['k']
+    d = ctx.tmpdir()
+    audit = _AUDIT[0]
+    try:
+        root = os.path.join(d, 'mirror')
+        os.makedirs(os.path.join(d, 'local'))
+        local = os.path.join(d, 'local', 'Packages')
+        remote = 'file://' + root + '/Packages'
+        start = case['start']
+        if start != 'absent':
+            with open(local, 'w', encoding='utf-8') as f:
+                f.write(''.join(vs[int(start[1:])]) if start.startswith('v') else 'Foreign: 1\n\n')
+        for stage, upto in enumerate((k, len(vs))):
+            if os.path.exists(root):
+                shutil.rmtree(root)
+            publish(root, vs[:upto], alg, {'kind': 'none'}, tuple(case.get('ilayout', (' ', ' '))), case.get('pnames'))
+            target = ''.join(vs[upto - 1])
+            before = None
+            if os.path.exists(local):
+                with open(local, encoding='utf-8') as f:
+                    before = f.read()
+            ctx.mon('M.advance')
+            ret = err = None
+            with audit:
+                try:
+                    ret = ds.update_file(remote, local)
+                except Exception as e:      # noqa
+                    err = e
+            urls = [e[1] for e in audit.events if e[0] == 'urllib.Request']
+            after = None
+            if os.path.exists(local):
+                with open(local, encoding='utf-8') as f:
+                    after = f.read()
+            tag = 'advance/stage%d' % stage
+            if err is not None or ret is None or ''.join(ret) != target or after != target or os.path.exists(local + '.new'):
+                ctx.violation('does-not-follow-an-advancing-mirror' if stage else 'returned-without-converging',
+                              '%s: err %r, returned %r..., local %r..., published %r...'
+                              % (tag, err, ret and ''.join(ret)[:80], after and after[:80], target[:80]), case)
+                return
+            if stage and before is not None and before != target:
+                chain_from = _expected_chain(vs[:upto], vs[k - 1])
+                want = ['%s.diff/%s.gz' % (remote, pname(case.get('pnames'), i)) for i in range(chain_from, upto - 1)] \
+                    if chain_from is not None else None
+                got = [u for u in urls if '.diff/p' in u]
+                if want is not None and (got != want or remote + '.gz' in urls):
+                    ctx.violation('T3/not-updated-by-the-patch-chain', '%s: fetched %r, chain is %r' % (tag, urls, want), case)
+                    return
+                ctx.count('advance:second-stage-by-chain' if want is not None else 'advance:second-stage-by-full-file')
+        ctx.nontrivial(case=case)
+    finally:
+        shutil.rmtree(d, ignore_errors=True)
+
+
 def run_case(ctx, case):
+    if case.get('kind') == 'advance':
+        return run_advance(ctx, case)
     fault = case['fault']
     d = ctx.tmpdir()
     try:
@@ -588,6 +656,35 @@ def _one(ctx, case, d, count_only=False):
             ctx.violation('T3/downloads-although-local-is-current', '%s: fetched %r' % (tag, urls), case)
         if (uses_chain and len(vs) - 1 - chain_from >= 2) or fired:
             ctx.nontrivial(case=case)
+        # ---------------- the NEXT call on the same local file, without any fault: after a transient failure it must
+        # converge; after a success it must find the file current (Index only, nothing downloaded, nothing rewritten)
+        if kind in ('none', 'write-fail', 'close-fail', 'open-fail', 'rename-veto') or (kind == 'failpoint' and (fault['n'] or 0) % 4 == 1):
+            ctx.mon('M.next-call')
+            ctx.count('next-call:after-%s' % ('error' if err is not None else 'success'))
+            veto['renames'][:] = []
+            probes_hook.cb = lambda src, dst: veto['renames'].append((src, dst))
+            ret2 = err2 = None
+            try:
+                with audit:
+                    try:
+                        ret2 = ds.update_file(remote, local)
+                    except Exception as e:      # noqa
+                        err2 = e
+            finally:
+                probes_hook.cb = None
+            urls2 = [e[1] for e in audit.events if e[0] == 'urllib.Request']
+            after2 = None
+            if os.path.exists(local):
+                with open(local, encoding='utf-8') as f:
+                    after2 = f.read()
+            if err2 is not None or ret2 is None or ''.join(ret2) != target or after2 != target or os.path.exists(local + '.new'):
+                ctx.violation('next-call-after-%s-does-not-converge' % ('transient-failure' if err is not None else 'success'),
+                              '%s: second call: err %r, returned %r..., local %r..., published %r...'
+                              % (tag, err2, ret2 and ''.join(ret2)[:80], after2 and after2[:80], target[:80]), case)
+            elif err is None and after == target and ([u for u in urls2 if not u.endswith('.diff/Index')]
+                                                      or any(x[1] == local for x in veto['renames'])):
+                ctx.violation('T3/downloads-although-local-is-current', '%s: second call fetched %r renames %r'
+                              % (tag, urls2, veto['renames']), case)
         return fired
 
 
